@@ -77,19 +77,19 @@ package bridgesync
 //@   requires rhtOK(rhtHas(p.exitTree.Tree), rhtL(p.exitTree.Tree), rhtR(p.exitTree.Tree))
 //@   modifies heap
 //@   ensures[rht-content-addressed] rhtOK(rhtHas(p.exitTree.Tree), rhtL(p.exitTree.Tree), rhtR(p.exitTree.Tree))
-//@   ensures[halted-refuses] old(p.halted) ==> result == sync.ErrInconsistentState && lastTx == old(lastTx) && p.halted
+//@   ensures[halted-refuses] old(p.halted) ==> isErr(result, sync.ErrInconsistentState) && lastTx == old(lastTx) && p.halted
 //@   ensures[all-or-nothing] (!old(p.halted) && lastTx != old(lastTx)) ==> ((result == nil ==> txState(lastTx) == 1) && (result != nil ==> txState(lastTx) == 2))
 //@   ensures[no-transaction-no-success] (!old(p.halted) && lastTx == old(lastTx)) ==> result != nil
-//@   ensures[halts-only-with-inconsistency-error] p.halted != old(p.halted) ==> p.halted && result == sync.ErrInconsistentState
+//@   ensures[halts-only-with-inconsistency-error] p.halted != old(p.halted) ==> p.halted && isErr(result, sync.ErrInconsistentState)
 // the driver answers an inconsistency report by giving the block up and stopping the download (it does not retry it),
 // while blocks already handed over are still processed: so that "no later block is recorded while an earlier one is
 // missing" (C07) the report may only be made by a store that from now on refuses every block, i.e. a halted one;
 // any other failure must be reported as an ordinary error, which the driver answers by retrying the same block
-//@   ensures[inconsistency-report-means-halted] result == sync.ErrInconsistentState ==> p.halted
+//@   ensures[inconsistency-report-means-halted] isErr(result, sync.ErrInconsistentState) ==> p.halted
 // per-event wiring (C01): the leaf appended for a bridge event sits at the event's deposit count and is the leaf value of
 // that event's fields (Bridge.Hash, proved), recorded for this block at the event's position, through this transaction
 //@   assert call:AddLeaf arg0 == p.exitTree && arg1 == tx && arg2 == block.Num && arg3 == event.Bridge.BlockPos && arg4.Index == event.Bridge.DepositCount
-//@   ensures[deposit-count-gap-halts] (!old(p.halted) && leafCalls != old(leafCalls) && isErr(lastLeafErr, tree.ErrInvalidIndex)) ==> p.halted && result == sync.ErrInconsistentState
+//@   ensures[deposit-count-gap-halts] (!old(p.halted) && leafCalls != old(leafCalls) && isErr(lastLeafErr, tree.ErrInvalidIndex)) ==> p.halted && isErr(result, sync.ErrInconsistentState)
 //@   ensures[committed-only-if-every-statement-succeeded] result == nil ==> stmtFail == old(stmtFail)
 //@   loop 0 invariant p.halted == old(p.halted) && !p.halted && p.log == old(p.log) && p.log != nil && p.exitTree == old(p.exitTree) && p.exitTree != nil && p.exitTree.Tree != nil && len(p.exitTree.zeroHashes) == 33
 //@   loop 0 invariant 0 <= rangeindex + 1 && rangeindex + 1 <= len(block.Events)
